@@ -242,6 +242,7 @@ func (auth *Authenticator) NewRole(name string, channels base.Set) (Role, error)
 	if existingRole != nil && existingRole.IsDeleted() {
 		role.SetCas(existingRole.Cas())
 		role.SetChannelHistory(existingRole.ChannelHistory())
+		role.copyCollectionChannelHistory(existingRole)
 	}
 	if err := role.initRole(name, channels, auth.Collections); err != nil {
 		return nil, err
@@ -250,6 +251,18 @@ func (auth *Authenticator) NewRole(name string, channels base.Set) (Role, error)
 		return nil, err
 	}
 	return role, nil
+}
+
+// copyCollectionChannelHistory carries the channel history of the non-default collections of a deleted role over to
+// its re-created successor, as SetChannelHistory does for the default collection.
+func (role *roleImpl) copyCollectionChannelHistory(existingRole Role) {
+	for scopeName, scope := range existingRole.GetCollectionsAccess() {
+		for collectionName, collectionAccess := range scope {
+			if history := collectionAccess.ChannelHistory(); len(history) > 0 {
+				role.getOrCreateCollectionAccess(scopeName, collectionName).SetChannelHistory(history)
+			}
+		}
+	}
 }
 
 // Creates a new Role object.
@@ -265,6 +278,7 @@ func (auth *Authenticator) NewRoleNoChannels(name string) (Role, error) {
 	if existingRole != nil && existingRole.IsDeleted() {
 		role.SetCas(existingRole.Cas())
 		role.SetChannelHistory(existingRole.ChannelHistory())
+		role.copyCollectionChannelHistory(existingRole)
 	}
 
 	if err := role.initRole(name, nil, nil); err != nil {
